@@ -50,6 +50,21 @@ PRestart(w2) ==        \* the process restarts on the same database, possibly wi
   /\ w2 \in Windows
   /\ w' = w2 /\ must' = must \cap InWin(last, w2) /\ q' = TRUE /\ last' = last
 
+(* The process dies inside a call (crash point = after any number of its durable writes) and is reopened with   *)
+(* the same window.  The durable step of a call is atomic: the reopened index is the image before or after the  *)
+(* whole call; `took` says which (in a recorded trace it is read off the reopened index: last accepted height / *)
+(* presence of the saved block).  Reopening runs the startup cleanup, so q holds.                                *)
+PCrashAccept(h, took) ==
+  /\ h \in Heights /\ h > last /\ (last = -1 => h = 0)
+  /\ last' = IF took THEN h ELSE last
+  /\ must' = IF took THEN (must \cup {h}) \cap InWin(h, w) ELSE must
+  /\ q' = TRUE /\ w' = w
+
+PCrashSave(x, took) ==
+  /\ last >= 0 /\ x \in Heights /\ 0 < x /\ x < last
+  /\ must' = IF took /\ x \in InWin(last, w) THEN must \cup {x} ELSE must
+  /\ q' = TRUE /\ UNCHANGED <<w, last>>
+
 (* ---------------- tables, as coded ---------------- *)
 Write(h)     == blk' = blk \cup {h} /\ h2id' = h2id \cup {h} /\ id2h' = id2h \cup {h}
 (* delete block, id->height (the id is read from height->id) and height->id for every height in D \subseteq h2id *)
@@ -78,6 +93,33 @@ IRestart(w2) ==
          D  == IF w2 = 0 \/ la <= w2 THEN {} ELSE {x \in h2id : 0 < x /\ x < la - w2}
      IN blk' = blk \ D /\ h2id' = h2id \ D /\ id2h' = id2h \ D
 
+(* crash inside UpdateLastAccepted / SaveHistorical followed by reopen: one batch.Write is the only durable write *)
+(* of either call, so the image is the one before or after the whole call; then cleanupOnStartup runs.           *)
+Tabs          == [blk |-> blk, h2id |-> h2id, id2h |-> id2h]
+PruneSet(t, h)  == IF w = 0 \/ h - w <= 0 THEN {} ELSE {x \in t.h2id : 0 < x /\ x <= h - w}
+AfterAccept(t, h) == LET D == PruneSet(t, h) IN
+                     [blk |-> (t.blk \ D) \cup {h}, h2id |-> (t.h2id \ D) \cup {h}, id2h |-> (t.id2h \ D) \cup {h}]
+AfterSave(t, x)   == [blk |-> t.blk \cup {x}, h2id |-> t.h2id \cup {x}, id2h |-> t.id2h \cup {x}]
+(* the seeded two-batch variant: the pruning deletions are durable before the block and lastAccepted are *)
+AfterPruneOnly(t, h) == LET D == PruneSet(t, h) IN [blk |-> t.blk \ D, h2id |-> t.h2id \ D, id2h |-> t.id2h \ D]
+Cleanup(t, la)    == LET D == IF w = 0 \/ la <= w THEN {} ELSE {x \in t.h2id : 0 < x /\ x < la - w}
+                     IN [blk |-> t.blk \ D, h2id |-> t.h2id \ D, id2h |-> t.id2h \ D]
+SetTabs(t)        == blk' = t.blk /\ h2id' = t.h2id /\ id2h' = t.id2h
+
+CrashAccept(h) == \E took \in BOOLEAN :
+  /\ PCrashAccept(h, took)
+  /\ res' = "ok"
+  /\ SetTabs(Cleanup(IF took THEN AfterAccept(Tabs, h) ELSE Tabs, IF took THEN h ELSE IF last < 0 THEN 0 ELSE last))
+CrashSave(x) == \E took \in BOOLEAN :
+  /\ PCrashSave(x, took)
+  /\ res' = "ok"
+  /\ SetTabs(Cleanup(IF took THEN AfterSave(Tabs, x) ELSE Tabs, last))
+(* crash between the two batch writes of the two-batch variant: pruned, but block h and lastAccepted not recorded *)
+CrashAcceptTwoBatches(h) ==
+  /\ PCrashAccept(h, FALSE)
+  /\ res' = "ok"
+  /\ SetTabs(Cleanup(AfterPruneOnly(Tabs, h), IF last < 0 THEN 0 ELSE last))
+
 Accept(h)   == PAccept(h) /\ IAccept(h)
 AcceptO(h)  == /\ h \in Heights /\ h > last /\ (last = -1 => h = 0)
                /\ IAcceptAsOriginallyCoded(h)
@@ -85,10 +127,12 @@ AcceptO(h)  == /\ h \in Heights /\ h > last /\ (last = -1 => h = 0)
 Save(x)     == PSave(x) /\ ISave(x)
 Restart(w2) == PRestart(w2) /\ IRestart(w2)
 
-Next  == (\E h \in Heights : Accept(h) \/ Save(h)) \/ (\E w2 \in Windows : Restart(w2))
+Next  == (\E h \in Heights : Accept(h) \/ Save(h) \/ CrashAccept(h) \/ CrashSave(h)) \/ (\E w2 \in Windows : Restart(w2))
+NextT == Next \/ (\E h \in Heights : CrashAcceptTwoBatches(h))
 NextO == (\E h \in Heights : AcceptO(h) \/ Save(h)) \/ (\E w2 \in Windows : Restart(w2))
 Spec                 == Init /\ [][Next]_vars
 SpecAsOriginallyCoded == Init /\ [][NextO]_vars
+SpecTwoBatches        == Init /\ [][NextT]_vars
 
 (* ---------------- the statement ---------------- *)
 TypeOK == /\ w \in Windows /\ last \in Heights \cup {-1} /\ must \subseteq Heights
